@@ -72,6 +72,7 @@ Definition outcome_agree (q : request) (spec impl : outcome) : bool :=
 
 Definition known_D24 := 24.
 Definition known_D33 := 33.
+Definition known_D34 := 34.
 
 Definition flip_grpc (o : outcome) : outcome :=
   match o with OProxy g bs fs => OProxy (negb g) bs fs | _ => o end.
@@ -82,10 +83,14 @@ Definition check_request (cs : cluster) (conf : list dir) (tbl : matchtable) (q 
   | DOutcome o mixed =>
       if outcome_agree q o impl then []
       else if mixed && outcome_agree q (flip_grpc o) impl then [code_known known_D33]
-      else [code_violation]
+      else match impl with
+           | OTLSReject => if class_D34 cs q then [code_known known_D34] else [code_violation]
+           | _ => [code_violation]
+           end
   | DNoMatch fallback =>
       match impl with
       | OStatus 404 => if fallback then [code_known known_D24] else []
+      | OTLSReject => if class_D34 cs q then [code_known known_D34] else [code_violation]
       | _ => if fallback then [] else [code_violation]
       end
   end.
